@@ -45,11 +45,7 @@ theorem matchOKB_sound (tree : Tree) (st : Stanza) (m : QMatch) (h : matchOKB tr
   · intro name q hl
     have hm := StrictSafe.lookup_mem hl
     have := h1 (name, q) hm
-    simp only [Bool.and_eq_true, bne_iff_ne, ne_eq, Bool.or_eq_true, Bool.not_eq_true', List.isEmpty_eq_false_iff] at this
-    refine ⟨this.1, fun hq => ?_⟩
-    rcases this.2 with h' | h'
-    · exact absurd hq h'
-    · exact h'
+    simpa only [bne_iff_ne, ne_eq] using this
   · intro n rest hmn
     rw [hmn] at h2
     exact h2
